@@ -13,8 +13,8 @@ WIP = "check not built yet in this session (work in progress; planned per DESIGN
 NOT_APPLICABLE = {"C%02d" % i: WIP for i in range(1, 21)}
 NOT_APPLICABLE["C18"] = ("data-race freedom / schedule independence over OS-thread interleavings of std::thread/mutex/condition_variable code: "
                          "no solver-based engine in this image can execute C++ threads symbolically (CBMC C++ front end stops at libstdc++ headers)")
-SRE_TECH = "bounded symbolic execution of the real code over symbolic reals (LLVM-instrumented libnano, fork per feasible branch), z3 nlsat decides every obligation"
-SRE_NOTE = ("trusted: clang-14/LLVM-14, symfp pass + symrt runtime (cross-validated against the un-instrumented build on every run), z3 4.8.12; "
+SRE_TECH = "bounded symbolic execution of the real code over symbolic reals (LLVM-instrumented libnano, fork per feasible branch), z3 nlsat (fallback: cvc5 on the same SMT-LIB text) decides every obligation"
+SRE_NOTE = ("trusted: clang-14/LLVM-14, symfp pass + symrt runtime (cross-validated against the un-instrumented build on every run), z3 4.8.12 (nlsat) and, for the queries z3 leaves unknown, cvc5 1.0; "
             "assumes real arithmetic (no rounding), scalar -O1 code path, stated input boxes and sizes; inline thread pool and fixed RNG seed")
 
 SBV_TECH = ("bounded symbolic execution of the real code at the LLVM-IR level (own KLEE-style interpreter over the clang-14 bitcode of libnano and the harness, "
@@ -109,11 +109,11 @@ PROPERTIES["C20"] = {
     "level": "other",
     "level_text": "bounded symbolic verification: for every list of n symbolic reals (ties included), every percentage, every threshold/ratio/percentile specification and every real query v, percentile/median/histogram results equal the sorted-array reference; solver verdict per obligation",
     "level_note": SRE_NOTE,
-    "technique": SRE_TECH,
+    "technique": SRE_TECH + "; integral value lists by " + SBV_TECH + "; position arithmetic by " + LIFT_TECH,
     "explanation": "C20: nano::percentile / percentile_sorted / median / median_sorted and histogram_t (thresholds, ratios, percentiles; counts, means, medians, bin()) on symbolic values; float->int conversions are enumerated by the solver.",
     "assumptions": SRE_ASSUME + ["values boxed to [-4,4], thresholds to [-5,5], query to [-6,6], percentages to [0,100]"],
     "bounds": {"values": "n <= 4 (quick), n <= 5 (thorough)", "thresholds": "<= 2 (quick), <= 3 (thorough)"},
-    "outside": ["histogram_t::make_from_exponents (log/pow thresholds)", "lists longer than 5 with symbolic contents (the bit-precise LIFT-C unit covers the position arithmetic up to n=128 on ramp data)"],
+    "outside": ["histogram_t::make_from_exponents (log/pow thresholds)", "integral value lists longer than 4 (unit C20_histint: symbolic int16/int32/int64 values, symbolic double thresholds, bit-precise)", "lists longer than 5 with symbolic contents (the bit-precise LIFT-C unit covers the position arithmetic up to n=128 on ramp data)"],
     "units": [
         {"engine": "sre", "harness": "C20_stats", "sources": ["C20_stats.cpp"],
          "quick": ["mode=pct;n=1;var=0", "mode=pct;n=2;var=0", "mode=pct;n=3;var=0", "mode=pct;n=4;var=0", "mode=pct;n=4;var=1", "mode=pct;n=3;var=2",
@@ -133,6 +133,12 @@ PROPERTIES["C20"] = {
                    {"func": "h_bin", "unwind": 5, "desc": "bit-precise: histogram_t::bin(v) = #thresholds <= v for every finite double v and <=3 sorted thresholds"}],
          "thorough": [{"func": "h_percentile_position", "unwind": 130, "desc": "as quick"}, {"func": "h_median", "unwind": 130, "desc": "as quick"}, {"func": "h_bin", "unwind": 5, "desc": "as quick"}],
          "encoded": ["nano::percentile_sorted / detail::percentile (IEEE double position arithmetic, floor/ceil)", "nano::median_sorted", "nano::histogram_t::bin (std::upper_bound)"]},
+        {"engine": "sbv", "harness": "C20_histint", "sources": ["C20_histint.cpp"],
+         "quick": ["type=i32;n=3;t=1;how=0", "type=i16;n=3;t=2;how=0", "type=i64;n=2;t=1;how=0;means=1", "type=i32;n=4;t=1;how=0"],
+         "thorough": ["type=%s;n=%d;t=%d;how=%d;means=%d" % t for t in (("i32", 3, 1, 0, 1), ("i16", 3, 2, 0, 0), ("i64", 2, 1, 0, 1), ("i32", 4, 1, 0, 0), ("i32", 4, 2, 0, 0), ("i16", 2, 1, 1, 0), ("i32", 3, 3, 0, 0), ("i64", 3, 2, 0, 1))],
+         "budget": {"quick": {"deadline_s": 120, "max_paths": 20000, "query_s": 10}, "thorough": {"deadline_s": 1200, "max_paths": 200000, "query_s": 60}},
+         "encoded": ["nano::histogram_t::{make_from_thresholds, make_from_ratios, histogram_t(begin,end,thresholds), update, update_bin, bin, count, mean, median} instantiated for int16/int32/int64 value lists",
+                     "std::sort / std::upper_bound instantiations on integral iterators with double thresholds", "nano::median_sorted on integral lists"]},
     ],
 }
 
